@@ -531,6 +531,17 @@ def o_positions(case, lines):
                 return "InvalidChar(actual %d) reported at %d:%d, where the input has %d" % (int(f[5]), row, col, ord(at))
             if f[1] == "InvalidChar2" and at is not None and ord(at) < 128 and ord(at) != int(f[5]):
                 return "InvalidChar2(actual %d) reported at %d:%d, where the input has %d" % (int(f[5]), row, col, ord(at))
+            # the construct named by the variant stands at the reported place: a loop is reported right behind the
+            # offending reference '&name;', an unknown reference / a '<' reaching an attribute at the '&' resp. the '<'
+            before = line[:col - 1]
+            if f[1] == "EntityReferenceLoop" and not before.endswith(";"):
+                return "EntityReferenceLoop reported at %d:%d, which is not right behind a reference" % (row, col)
+            if f[1] == "EntityReferenceLoop" and "&" not in before:
+                return "EntityReferenceLoop reported at %d:%d, no reference stands before that place on its line" % (row, col)
+            if f[1] == "UnknownEntityReference" and at != "&":
+                return "UnknownEntityReference reported at %d:%d, where the input has %r, not the '&' of a reference" % (row, col, at)
+            if f[1] == "InvalidAttributeValue" and at not in ("<", "&"):
+                return "InvalidAttributeValue reported at %d:%d, where the input has %r, neither '<' nor a reference to it" % (row, col, at)
     return None
 
 
